@@ -119,6 +119,12 @@ def judge(ck, pid, progs, results):
                               f"{r['name']}: a valid program is rejected: {r['detail'][:160]}",
                               {"program": prog["src"], "prog_args": prog["args"], "verdict": r["detail"]})
                 continue
+            if prog.get("must_reject"):
+                # a program the property says must be diagnosed (e.g. two else clauses) was accepted
+                ck.report(f"accepted/{population.src_hash(prog['src'])}",
+                          f"{r['name']}: a program that has to be rejected is accepted ({prog['must_reject']})",
+                          {"program": prog["src"], "prog_args": prog["args"], "status": s})
+                continue
             if s == "unsupported":
                 st["unsupported"] += 1
                 k = r["detail"][:50]
